@@ -270,6 +270,171 @@ Qed.
 
 End TN.
 
+(* ------------------------------------------------------------------ requests, responses, topic messages *)
+Section TNSub.
+Variables snake camel screaming : str -> str.
+Hypothesis Hcamel : forall s, nodot_b (camel s) = true.
+Hypothesis Hsnake : forall s, nodot_b (snake s) = true.
+Variable ev : env.
+Hypothesis Henv : forall r t, resolve ev r = Ok t -> tr_pkg t <> [].
+Variable pkg : str.    (* the sub-package *)
+
+Notation cv_virtual := (cv_virtual snake camel screaming).
+Notation cv_method := (cv_method snake camel screaming).
+Notation cv_methods := (cv_methods snake camel screaming).
+Notation cv_service := (cv_service snake camel screaming).
+Notation cv_tmsgs := (cv_tmsgs snake camel screaming).
+Notation accept_topic := (accept_topic snake camel screaming).
+Notation cv_topic := (cv_topic snake camel screaming).
+Notation virtual_ftypes := (virtual_ftypes snake camel ev pkg).
+Notation method_ftypes := (method_ftypes snake camel ev pkg).
+Notation service_ftypes := (service_ftypes snake camel ev pkg).
+Notation tmsgs_ftypes := (tmsgs_ftypes snake camel ev pkg).
+Notation topic_ftypes := (topic_ftypes snake camel ev pkg).
+Notation lkr := (lkm pkg [] pkg).
+
+Lemma good_single name : good_name name -> good_path [name].
+Proof.
+  intros [Hu _]. destruct name as [|c r]; [discriminate|]. exists c, r, []. split; [reflexivity|].
+  cbn in Hu. intros ->. vm_compute in Hu. discriminate.
+Qed.
+
+Lemma virtual_tnames name virt decl m is :
+  wf_virtual snake camel ev (papp virt decl) = true -> good_name name ->
+  cv_virtual ev name virt decl = Ok (m, is) -> lkr m = virtual_ftypes name (papp virt decl).
+Proof.
+  unfold wf_virtual, J5sConvert.cv_virtual. intros Hw Hg H. apply andb_true_iff in Hw. destruct Hw as [Hw _].
+  inv_ok H. inversion H. subst. clear H. rewrite lkm_eq. cbn [app].
+  pose proof (props_named snake camel screaming Hcamel Hsnake ev Henv _ false Hw _ _ _ (good_path_ne _ (good_single _ Hg)) E) as Hr.
+  destruct (proj1 (proj2 (convert_tnames snake camel screaming Hcamel Hsnake ev Henv pkg)) _ false Hw _ _ _ (qual pkg name)
+              (map dm_name (pr_msgs a)) (good_single _ Hg) (pieces_nodots _ Hr) (incl_refl _) E) as [A1 A2].
+  rewrite A1, A2. reflexivity.
+Qed.
+
+Lemma method_tnames base m ms dm is :
+  wf_method snake camel ev base m = true -> cv_method ev base m = Ok (ms, dm, is) ->
+  flat_map lkr ms = method_ftypes m.
+Proof.
+  unfold wf_method, J5sConvert.cv_method. intros Hw H. apply and4 in Hw. destruct Hw as (Hn & Hq & Hp & _).
+  apply type_ident_facts in Hn.
+  apply obind_ok in H. destruct H as ([rq rqi] & Erq & H).
+  apply obind_ok in H. destruct H as ([[rmsgs outn] rimps] & Ers & H).
+  apply obind_ok in H. destruct H as (h & _ & H). inversion H. subst ms dm is. clear H.
+  unfold J5sTypeNames.method_ftypes. cbn [flat_map fst].
+  rewrite (virtual_tnames _ PNil _ _ _ Hq (good_suffix _ (b "Request") Hn eq_refl) Erq). cbn [papp]. f_equal.
+  destruct (m_response m) as [ps|].
+  - apply obind_ok in Ers. destruct Ers as ([rs rsi] & Ev & Ers). inversion Ers. subst. cbn [flat_map fst].
+    rewrite app_nil_r, (virtual_tnames _ PNil _ _ _ Hp (good_suffix _ (b "Response") Hn eq_refl) Ev). reflexivity.
+  - inversion Ers. subst. reflexivity.
+Qed.
+
+Lemma methods_tnames base l : forall ms ds is,
+  forallb (wf_method snake camel ev base) l = true -> cv_methods ev base l = Ok (ms, ds, is) ->
+  flat_map lkr ms = flat_map method_ftypes l.
+Proof.
+  induction l as [|m r IH]; intros ms ds is Hw H; cbn [forallb J5sConvert.cv_methods] in Hw, H.
+  - inversion H. reflexivity.
+  - apply andb_true_iff in Hw. destruct Hw as [H1 H2].
+    apply obind_ok in H. destruct H as ([[am ad] ai] & Ea & H).
+    apply obind_ok in H. destruct H as ([[cm cd] ci] & Ec & H). inversion H. subst. clear H.
+    cbn [flat_map]. rewrite flat_map_app, (method_tnames _ _ _ _ _ H1 Ea), (IH _ _ _ H2 Ec). reflexivity.
+Qed.
+
+Lemma service_tnames s ms ss is :
+  wf_service snake camel ev s = true -> cv_service ev s = Ok (ms, ss, is) -> flat_map lkr ms = service_ftypes s.
+Proof.
+  unfold wf_service, J5sConvert.cv_service. intros Hw H.
+  apply andb_true_iff in Hw. destruct Hw as [Hw _]. apply andb_true_iff in Hw. destruct Hw as [_ Hw].
+  apply obind_ok in H. destruct H as ([[m1 d1] i1] & E & H). inversion H. subst.
+  exact (methods_tnames _ _ _ _ _ Hw E).
+Qed.
+
+Lemma tmsgs_tnames tname single virt l : forall ms ds is,
+  good_name tname -> forallb (wf_tmsg snake camel ev single virt) l = true ->
+  cv_tmsgs ev tname single virt l = Ok (ms, ds, is) -> flat_map lkr ms = tmsgs_ftypes tname virt l.
+Proof.
+  induction l as [|t r IH]; intros ms ds is Hg Hw H.
+  - cbn in H. inversion H. reflexivity.
+  - pose proof (tmsgs_good snake camel ev single virt tname (t :: r) Hg Hw t (or_introl eq_refl)) as Hgt.
+    cbn [forallb] in Hw. apply andb_true_iff in Hw. destruct Hw as [H1 H2].
+    cbn [J5sConvert.cv_tmsgs] in H.
+    apply obind_ok in H. destruct H as (mn & Emn & H).
+    apply obind_ok in H. destruct H as ([m1 i1] & Ev & H).
+    apply obind_ok in H. destruct H as ([[cm cd] ci] & Er & H). inversion H. subst. clear H.
+    assert (Hmn : mn = tmsg_name tname t).
+    { unfold tmsg_name. destruct (tm_name t); [inversion Emn; reflexivity|]. destruct single; inversion Emn. reflexivity. }
+    subst mn. unfold wf_tmsg in H1. apply andb_true_iff in H1. destruct H1 as [Hv _].
+    unfold J5sTypeNames.tmsgs_ftypes in *. cbn [flat_map fst].
+    rewrite (virtual_tnames _ _ _ _ _ Hv (good_suffix _ (b "Message") Hgt eq_refl) Ev), (IH _ _ _ Hg H2 Er). reflexivity.
+Qed.
+
+Lemma accept_tnames tname topic_name rl virt l ms ss is :
+  good_name tname -> forallb (wf_tmsg snake camel ev (is_single_b l) virt) l = true ->
+  accept_topic ev tname topic_name rl virt l = Ok (ms, ss, is) -> flat_map lkr ms = tmsgs_ftypes tname virt l.
+Proof.
+  unfold J5sConvert.accept_topic. intros Hg Hw H. apply obind_ok in H. destruct H as ([[m1 d1] i1] & E & H). inversion H. subst.
+  eapply tmsgs_tnames; [exact Hg| |exact E]. exact Hw.
+Qed.
+
+Lemma topic_tnames t ms ss is :
+  wf_topic snake camel ev t = true -> cv_topic ev t = Ok (ms, ss, is) -> flat_map lkr ms = topic_ftypes t.
+Proof.
+  destruct t as [name msgs|name req reply|name entity msg|name entity msg]; cbn [wf_topic J5sConvert.cv_topic J5sTypeNames.topic_ftypes]; intros Hw H.
+  - apply andb_true_iff in Hw. destruct Hw as [Hn Hw]. apply type_ident_facts in Hn.
+    eapply accept_tnames; [exact Hn|exact Hw|exact H].
+  - apply andb_true_iff in Hw. destruct Hw as [Hw Hr]. apply andb_true_iff in Hw. destruct Hw as [Hn Hq].
+    apply type_ident_facts in Hn.
+    apply obind_ok in H. destruct H as ([[am asv] ai] & Ea & H).
+    apply obind_ok in H. destruct H as ([[cm csv] ci] & Ec & H). inversion H. subst. clear H.
+    rewrite flat_map_app.
+    rewrite (accept_tnames _ _ _ _ _ _ _ _ (good_suffix _ (b "Request") Hn eq_refl) Hq Ea).
+    rewrite (accept_tnames _ _ _ _ _ _ _ _ (good_suffix _ (b "Reply") Hn eq_refl) Hr Ec). reflexivity.
+  - apply andb_true_iff in Hw. destruct Hw as [Hn0 Hw]. pose proof (type_ident_facts _ Hn0) as Hn.
+    eapply accept_tnames; [exact Hn| |exact H]. cbn [forallb is_single_b]. rewrite andb_true_r.
+    unfold wf_tmsg, default_tm_name in *. destruct (tm_name msg) as [n|] eqn:En; [rewrite En; exact Hw|].
+    cbn [tm_name tm_fields]. apply andb_true_iff in Hw. destruct Hw as [Hv _]. rewrite Hv. cbn.
+    exact Hn0.
+  - apply andb_true_iff in Hw. destruct Hw as [Hn Hw]. apply type_ident_facts in Hn.
+    eapply accept_tnames; [exact Hn| |exact H]. cbn [forallb is_single_b]. rewrite Hw. reflexivity.
+Qed.
+
+End TNSub.
+
+Section TNSubElems.
+Variables snake camel screaming : str -> str.
+Hypothesis Hcamel : forall s, nodot_b (camel s) = true.
+Hypothesis Hsnake : forall s, nodot_b (snake s) = true.
+Variable ev : env.
+Hypothesis Henv : forall r t, resolve ev r = Ok t -> tr_pkg t <> [].
+Variables spkg tpkg : str.
+
+Lemma cv_elements_sub_tnames pkg els : forall m s t m' s' t',
+  forallb (wf_element snake camel ev) els = true ->
+  cv_elements snake camel screaming ev pkg els m s t = Ok (m', s', t') ->
+  flat_map (lkm spkg [] spkg) (fa_msgs s') =
+    flat_map (lkm spkg [] spkg) (fa_msgs s) ++ flat_map (service_ftypes snake camel ev spkg) (flat_map elem_services els) /\
+  flat_map (lkm tpkg [] tpkg) (fa_msgs t') =
+    flat_map (lkm tpkg [] tpkg) (fa_msgs t) ++ flat_map (topic_ftypes snake camel ev tpkg) (flat_map elem_topics els).
+Proof.
+  induction els as [|e r IH]; intros m s t m' s' t' Hw H; cbn [forallb J5sConvert.cv_elements] in Hw, H.
+  - inversion H. subst. cbn. rewrite !app_nil_r. auto.
+  - apply andb_true_iff in Hw. destruct Hw as [Hw1 Hw2].
+    destruct e as [nm ps subs|nm ps subs|en|sv|tp]; cbn [flat_map elem_services elem_topics app].
+    + apply obind_ok in H. destruct H as ([[ms es] is] & _ & H). exact (IH _ _ _ _ _ _ Hw2 H).
+    + apply obind_ok in H. destruct H as ([[ms es] is] & _ & H). exact (IH _ _ _ _ _ _ Hw2 H).
+    + exact (IH _ _ _ _ _ _ Hw2 H).
+    + apply obind_ok in H. destruct H as ([[ms ss] is] & E & H). cbn [wf_element] in Hw1.
+      destruct (IH _ _ _ _ _ _ Hw2 H) as [A B]. split; [|exact B].
+      cbn [facc_add fa_msgs] in A. rewrite A, flat_map_app, <- app_assoc.
+      rewrite (service_tnames snake camel screaming Hcamel Hsnake ev Henv spkg _ _ _ _ Hw1 E). reflexivity.
+    + apply obind_ok in H. destruct H as ([[ms ss] is] & E & H). cbn [wf_element] in Hw1.
+      destruct (IH _ _ _ _ _ _ Hw2 H) as [A B]. split; [exact A|].
+      cbn [facc_add fa_msgs] in B. rewrite B, flat_map_app, <- app_assoc.
+      rewrite (topic_tnames snake camel screaming Hcamel Hsnake ev Henv tpkg _ _ _ _ Hw1 E). reflexivity.
+Qed.
+
+End TNSubElems.
+
 (* ------------------------------------------------------------------ files and packages *)
 Section TNFiles.
 Variables snake camel screaming : str -> str.
@@ -318,6 +483,71 @@ Proof.
   destruct (I1 f (in_pkg_files _ _ _ Hin Hp)) as (Df & Hc & Hi).
   destruct (cv_file_tnames bd f Df im Hne (valid_files snake camel screaming bd Hv f Hin) Him Hc) as (df & Hd & Hl).
   destruct (link_files_of _ _ _ El (Hi _ Hd)) as (df' & Hd' & Hl'). exists df'. split; [exact Hd'|apply Hl; exact Hl'].
+Qed.
+
+
+(* the request / response / topic messages: the .service and .topic files *)
+Definition service_types_ok (ev : env) (f : jfile) (df : dfile) : Prop :=
+  fl_path df = sub_proto_path f (b "service") /\
+  flat_map (msg_ftypes (sub_pkg (j5s_pkg f) (b "service"))) (fl_msgs df) =
+  flat_map (service_ftypes snake camel ev (sub_pkg (j5s_pkg f) (b "service"))) (file_services f).
+Definition topic_types_ok (ev : env) (f : jfile) (df : dfile) : Prop :=
+  fl_path df = sub_proto_path f (b "topic") /\
+  flat_map (msg_ftypes (sub_pkg (j5s_pkg f) (b "topic"))) (fl_msgs df) =
+  flat_map (topic_ftypes snake camel ev (sub_pkg (j5s_pkg f) (b "topic"))) (file_topics f).
+
+Lemma cv_file_sub_tnames bd f D im :
+  (forall x, In x bd -> bfile_pkg x <> []) ->
+  valid_file snake camel bd f = true ->
+  import_map (jf_imports f) [] = Ok im ->
+  cv_file snake camel screaming (pkg_exports camel bd) f = Ok D ->
+  (file_services f <> [] -> exists df, In df D /\ forall df', link_file df = Ok df' ->
+     service_types_ok (mkEnv (j5s_pkg f) im (pkg_exports camel bd)) f df') /\
+  (file_topics f <> [] -> exists df, In df D /\ forall df', link_file df = Ok df' ->
+     topic_types_ok (mkEnv (j5s_pkg f) im (pkg_exports camel bd)) f df').
+Proof.
+  unfold valid_file, cv_file. intros Hne Hv Him H. apply andb_true_iff in Hv. destruct Hv as [_ Hv].
+  rewrite Him in Hv, H. cbn [obind] in H.
+  apply obind_ok in H. destruct H as ([[m s] t] & E & H). inversion H. subst D. clear H.
+  set (ev := mkEnv (j5s_pkg f) im (pkg_exports camel bd)) in *.
+  assert (Henv : forall r t0, resolve ev r = Ok t0 -> tr_pkg t0 <> []) by (intros r t0; apply (resolve_has_pkg camel bd); exact Hne).
+  destruct (cv_elements_linkable snake camel screaming _ _ _ facc_nil facc_nil facc_nil _ _ _ Hv (linkable_nil) (linkable_nil) eq_refl E) as (Ls & Lt & _).
+  destruct (cv_elements_parts snake camel screaming ev _ _ _ _ _ _ _ _ E)
+    as [(_ & _ & _ & _ & _ & _ & S5) (_ & _ & _ & _ & _ & _ & T5)].
+  cbn [facc_nil fa_used orb] in S5, T5.
+  destruct (cv_elements_sub_tnames snake camel screaming Hcamel Hsnake ev Henv
+              (sub_pkg (j5s_pkg f) (b "service")) (sub_pkg (j5s_pkg f) (b "topic")) _ _ _ _ _ _ _ _ Hv E) as [A B].
+  cbn [facc_nil fa_msgs flat_map app] in A, B.
+  split.
+  - intros Hnes. assert (Hu : fa_used s = true) by (rewrite S5; apply nonempty_ne; exact Hnes).
+    eexists. split; [right; apply in_or_app; left; rewrite Hu; left; reflexivity|].
+    intros df' Hl. destruct (link_file_val _ _ _ _ Ls Hl) as (P1 & _ & _ & P4 & _).
+    split; [exact P1|]. rewrite P4. unfold link_msgs. rewrite flat_map_map. exact A.
+  - intros Hnet. assert (Hu : fa_used t = true) by (rewrite T5; apply nonempty_ne; exact Hnet).
+    eexists. split; [right; apply in_or_app; right; rewrite Hu; left; reflexivity|].
+    intros df' Hl. destruct (link_file_val _ _ _ _ Lt Hl) as (P1 & _ & _ & P4 & _).
+    split; [exact P1|]. rewrite P4. unfold link_msgs. rewrite flat_map_map. exact B.
+Qed.
+
+Theorem compile_sub_tnames bd pkg D :
+  valid_bundle snake camel screaming bd = true -> (forall x, In x bd -> bfile_pkg x <> []) ->
+  compile_package snake camel screaming bd pkg = Ok D ->
+  forall f im, In (BJ f) bd -> j5s_pkg f = pkg -> import_map (jf_imports f) [] = Ok im ->
+  (file_services f <> [] -> exists df, In df D /\ service_types_ok (mkEnv (j5s_pkg f) im (pkg_exports camel bd)) f df) /\
+  (file_topics f <> [] -> exists df, In df D /\ topic_types_ok (mkEnv (j5s_pkg f) im (pkg_exports camel bd)) f df).
+Proof.
+  intros Hv Hne HD f im Hin Hp Him.
+  destruct (compile_package_inv snake camel screaming _ _ _ HD) as (fs & Efs & _ & El & _).
+  unfold convert_package in Efs. destruct (pkg_files bd pkg) as [|x0 r0] eqn:Epf; [discriminate|].
+  rewrite <- Epf in Efs.
+  destruct (cv_files_split snake camel screaming _ _ _ Efs) as [I1 _].
+  destruct (I1 f (in_pkg_files _ _ _ Hin Hp)) as (Df & Hc & Hi).
+  destruct (cv_file_sub_tnames bd f Df im Hne (valid_files snake camel screaming bd Hv f Hin) Him Hc) as [Hs Ht].
+  split.
+  - intros Hnes. destruct (Hs Hnes) as (df & Hd & Hl).
+    destruct (link_files_of _ _ _ El (Hi _ Hd)) as (df' & Hd' & Hl'). exists df'. split; [exact Hd'|apply Hl; exact Hl'].
+  - intros Hnet. destruct (Ht Hnet) as (df & Hd & Hl).
+    destruct (link_files_of _ _ _ El (Hi _ Hd)) as (df' & Hd' & Hl'). exists df'. split; [exact Hd'|apply Hl; exact Hl'].
 Qed.
 
 End TNFiles.
